@@ -73,6 +73,19 @@ theorem c01_wire_form (p : Packet) (hwf : wfP p = true) :
         (p.payload ++ padBytes p))) := by
   rw [pktMarshal_wf p hwf]; simp [pktWire, hdrWire, hdrBytes]
 
+/-- Marshal is injective on well-formed packets up to the canonical observation: two packets with
+    the same wire image have the same fields (a decoder cannot confuse them). -/
+theorem c01_marshal_injective (p q : Packet) (hp : wfP p = true) (hq : wfP q = true)
+    (h : pktMarshal p = pktMarshal q) : canonP p = canonP q := by
+  rw [pktMarshal_wf p hp, pktMarshal_wf q hq] at h
+  injection h with h
+  have h1 := pktUnmarshal_wire p hp {}
+  have h2 := pktUnmarshal_wire q hq {}
+  rw [h, h2] at h1
+  injection h1 with h1
+  have := congrArg canonP h1
+  simpa [canonP, canonH_decoded] using this.symm
+
 /-! ### non-vacuity: the hypotheses hold for the boundary packets DESIGN §6 lists, and the
     round trip computes on them -/
 
